@@ -125,7 +125,11 @@ def real_filter_task(mods, defj, mf_scns, maxn):
             for ti, tk in enumerate(s["ticks"], start=1):
                 ctl = ekf.Control(**{c: (ti + j) / 4.0 for j, c in enumerate(d.control)}) if tk["ctl"] else None
                 mk = lambda r: {rn: (r["id"] * 3 + j) / 4.0 - 1.0 for j, rn in enumerate(sorted(d.sensors[keys[int(r["key"][1:]) - 1]]))}
-                readings = [runtime.StampedReading(r["t"] * UNIT, keys[int(r["key"][1:]) - 1], **mk(r)) for r in tk["rs"]]
+                objs = {}        # the same reading listed twice is the same object listed twice
+                for r in tk["rs"]:
+                    if r["id"] not in objs:
+                        objs[r["id"]] = runtime.StampedReading(r["t"] * UNIT, keys[int(r["key"][1:]) - 1], **mk(r))
+                readings = [objs[r["id"]] for r in tk["rs"]]
                 if tk["refused"]:
                     try:
                         mf.tick(tk["out"] * UNIT, control=None, readings=readings)
